@@ -261,6 +261,15 @@ def run_case(pid, p, rng, res, spec, tier):
             res.count('closure_checks_two_calls')
             for s, m in oracles.c04(o4, tv4):
                 viol(res, pid, year, s, m, p, 'two-calls', spec)
+            # ... and the return first (with a line nothing else reads signalling "not implemented"), another schedule afterwards
+            leaf = '1040.virtual_currency' if year == 2021 else '1040.digital_assets'
+            more = ['1040_s1'] if '1040_s1' not in p.forms() else ['1040_sb']
+            o4, tv4, _ = traced(fresh({leaf: 'yes'}), then_request=more)
+            res.evaluations += 1
+            res.count('closure_checks')
+            res.count('closure_checks_two_calls')
+            for s, m in oracles.c04(o4, tv4):
+                viol(res, pid, year, s, m, p, 'two-calls-after-unimplemented-leaf', spec)
         # numbered copies of one form requested by name, alone and next to the return
         copies = sorted({k_.split('.')[0] for k_ in tv.stored if ':' in k_.split('.')[0] and k_.split('.')[0].split(':')[0] in INPUT_FORM_NAMES})
         if len(copies) >= 2:
@@ -367,6 +376,16 @@ def run_case(pid, p, rng, res, spec, tier):
         variants.append(('split', {'file_map': dict(items[:len(items) // 2])}))
         variants.append(('file-layout', {'file_text': layout_text(answers, rng), 'refuse_from': 0}))
         variants.append(('file-on-disk', {'file_on_disk': True, 'refuse_from': 0}))
+        # the file a careful user prepares from the `list-form-inputs` templates: EVERY input of every form of the return, asked
+        # for or not (values the persona would give if asked) - what is never read is not needed, what is read gives the same
+        # result whether it sat in the file or was typed
+        if out.exc is None:
+            whole = dict(answers)
+            for fo in out.solver.forms.values():
+                for inp in fo.inputs():
+                    if inp.name() not in whole:
+                        whole[inp.name()] = p.answer(inp)       # the persona itself (a purpose-built one knows its amounts)
+            variants.append(('whole-file', {'file_map': whole, 'refuse_from': 0}))
         for name, kw in variants:
             kw = dict(kw)
             ft = kw.pop('file_text', None)
